@@ -306,6 +306,19 @@ def run_case(idx, rng, tier, res):
         if kind == 'dir':
             root = os.path.join(base, 'tree')
             files = write_tree(root, dirs, files)
+            if rng.random() < 0.06:
+                # hostile furniture: a link back to the parent (a cycle for a naive walk) and a dangling
+                # link named like a MIB file - neither is a file that could be returned
+                sub = [d for d in dirs if d]
+                try:
+                    if sub:
+                        os.symlink('..', os.path.join(root, *(rng.choice(sub) + ('up',))))
+                    dang = rng.choice(STEMS) + '-MIB' + rng.choice(EXTS)
+                    if not os.path.lexists(os.path.join(root, dang)):
+                        os.symlink('nowhere-at-all', os.path.join(root, dang))
+                    res.count('trees_with_link_cycles_and_dangling_links')
+                except OSError:
+                    pass
             if rng.random() < 0.25 and files:
                 # .index file in the root mapping a name to some file (maybe absent)
                 for _ in range(rng.randint(1, 2)):
